@@ -11,7 +11,7 @@ import (
 	"golang.org/x/text/unicode/bidi"
 )
 
-var vfSplitAlphabet = [...]rune{'a', 0x05D0, '1', ' ', '(', ')', 0x4E2D, 0x0301}
+var vfSplitAlphabet = [...]rune{'a', 0x05D0, ' ', '1', '(', ')', 0x4E2D, 0x0301}
 
 // two distinct faces of ONE font (e.g. two variation instances): they are not interchangeable
 var vfSharedFont = &font.Font{}
